@@ -78,3 +78,46 @@ Qed.
 
 Lemma rdict_nodup l : NoDup (rkeys l) -> rdict l = l.
 Proof. intros H. unfold rdict, rupdate. rewrite fold_rset_nodup; [reflexivity|exact H]. Qed.
+
+(* induction over the nested value type *)
+Section ValueInd.
+  Variable P : value -> Prop.
+  Hypothesis Hnull : P VNull.
+  Hypothesis Hbool : forall b, P (VBool b).
+  Hypothesis Hint : forall z, P (VInt z).
+  Hypothesis Hdec : forall m e, P (VDec m e).
+  Hypothesis Hflt : forall m e, P (VFlt m e).
+  Hypothesis Hstr : forall x, P (VStr x).
+  Hypothesis Hdate : forall y m d, P (VDate y m d).
+  Hypothesis Htime : forall h mi sc us, P (VTime h mi sc us).
+  Hypothesis Hdt : forall y mo d h mi sc us tz, P (VDT y mo d h mi sc us tz).
+  Hypothesis Hdur : forall d sc us, P (VDur d sc us).
+  Hypothesis Hlist : forall l, Forall P l -> P (VList l).
+  Hypothesis Hobj : forall l, Forall (fun kv => P (snd kv)) l -> P (VObj l).
+
+  Fixpoint value_ind2 (v : value) : P v :=
+    match v with
+    | VNull => Hnull
+    | VBool b => Hbool b
+    | VInt z => Hint z
+    | VDec m e => Hdec m e
+    | VFlt m e => Hflt m e
+    | VStr x => Hstr x
+    | VDate y m d => Hdate y m d
+    | VTime h mi sc us => Htime h mi sc us
+    | VDT y mo d h mi sc us tz => Hdt y mo d h mi sc us tz
+    | VDur d sc us => Hdur d sc us
+    | VList l =>
+        Hlist l ((fix go (l : list value) : Forall P l :=
+                    match l with
+                    | [] => Forall_nil P
+                    | x :: r => Forall_cons x (value_ind2 x) (go r)
+                    end) l)
+    | VObj l =>
+        Hobj l ((fix go (l : list (str * value)) : Forall (fun kv => P (snd kv)) l :=
+                   match l with
+                   | [] => Forall_nil _
+                   | kv :: r => Forall_cons kv (value_ind2 (snd kv)) (go r)
+                   end) l)
+    end.
+End ValueInd.
